@@ -241,6 +241,8 @@ STEP_HARNESSES = [
     de("env_step_b0_m2", "idle step on an arbitrary book with a non-zero traded-volume counter: counter reset, clock, one faithful record, nothing else", covers=["cover.idle_step_after_trading_step"]),
     de("env_step_b1_any_off", "one arbitrary instruction with the REAL process_event, trading off: result == reference engine replay at start+0; records and cache == live book", covers=[]),
     de("env_step_b1_any", "same with the trading flag symbolic (matching included)", covers=[], tiers=("thorough",), timeout=3000),
+    de("env_step_b1_modify_on", "one arbitrary Modify instruction with the REAL process_event, trading ON (re-pricing that executes included)", covers=[], tiers=("thorough",), timeout=3000),
+    de("env_step_b1_new_on", "one arbitrary New instruction with the REAL process_event, trading ON", covers=[], tiers=("thorough",), timeout=3000),
     de("env_step_b2_any_off", "two arbitrary instructions with the REAL process_event, trading off, all schedules == plain replay in the induced order", covers=["cover.last_submitted_processed_first"], tiers=("thorough",), timeout=3000),
 ]
 
@@ -281,9 +283,12 @@ PROPS["C11"] = {
     "assumptions": DE_ASSUME + ["inductive hypothesis: all series have equal length k (k = 1 arbitrary prior record)"],
     "bounds": "k = 1 prior record, 2 published levels, batches 0, 1 (real) and 2-3 (logged), arbitrary asymmetric 2-entry books",
     "outside": "LEVELS > 2, MarketEnv records (C14), more than one step in a row (induction over k is the stated argument)",
-    "explanation": "One step from an environment with k arbitrary prior records: every series (touch prices, side volumes, per-level volumes and order counts for each level, per-step traded volume) has k+1 entries, the earlier entries are unchanged, the last entry equals the value read from the live book's own getters after the step (bid series from bid getters, ask from ask, on asymmetric books), and the per-step traded volume equals the sum of the trades stamped within the step.",
+    "explanation": "One step from an environment with k arbitrary prior records: every series (touch prices, side volumes, per-level volumes and order counts for each level, per-step traded volume) has k+1 entries, the earlier entries are unchanged, the last entry equals the value read from the live book's own getters after the step (bid series from bid getters, ask from ask, on asymmetric books), and the per-step traded volume equals the sum of the trades stamped within the step: the step resets the book's counter before the first instruction and records it after the last (loop harnesses), every instruction of the batch is stamped inside the step (loop harnesses), and the book's counter grows by exactly the volume of the records each operation appends (C03's ledger audit, re-used here for placements and modifications).",
     "stubs": [STUB_LOOP, "std BTreeMap -> verif_map (cfg(kani) only)"],
-    "harnesses": [STEP_HARNESSES[3], dict(STEP_HARNESSES[5], tiers=("quick", "thorough"), timeout=1500), dict(STEP_HARNESSES[4], tiers=("thorough",)), STEP_HARNESSES[0], STEP_HARNESSES[1], MLOOP],
+    "harnesses": [STEP_HARNESSES[3], STEP_HARNESSES[4], STEP_HARNESSES[5], STEP_HARNESSES[6], STEP_HARNESSES[7], STEP_HARNESSES[0], STEP_HARNESSES[1], MLOOP,
+                  book("c03_modify_m2", "the counter a step records is exact: traded-volume counter delta == sum of the records appended, for modifications (re-pricing that executes included)"),
+                  book("c03_place_bid_limit_m2", "same for placements (bid limit)"),
+                  book("c03_place_ask_market_m2", "same for placements (ask market)", tiers=("thorough",))],
 }
 
 PROPS["C15"] = {
